@@ -637,17 +637,20 @@ impl TypedStmt {
                 vec![]
             }
             StmtEnum::ForEachLoop(pattern, array, body) => {
-                let (elem_in_bits, _) = array
+                let (elem_in_bits, size) = array
                     .ty
                     .unwrap_array_size(prg, circuit.const_sizes())
                     .expect("Found a non-array value in an array access expr");
                 let array = array.compile(prg, env, circuit);
 
+                // one iteration per element, also if the elements do not have any bits:
                 let mut i = 0;
-                while i < array.len() {
+                for _ in 0..size {
+                    let Some(binding) = array.get(i..i + elem_in_bits) else {
+                        break;
+                    };
                     // the bindings of an iteration end with the iteration:
                     env.push();
-                    let binding = &array[i..i + elem_in_bits];
                     pattern.compile(binding, prg, env, circuit);
 
                     for stmt in body {
